@@ -374,13 +374,15 @@ Definition add_import (c : cfg) (i : Z) (s : state) : state * cap :=
 Definition lref_cap (d : Z) (x : cap) (s : state) : state :=
   match x with CLocal j => lref d j s | _ => s end.
 Definition emb_busy (e : Z) (s : state) : bool := existsb (fun p => fst (fst p) =? e) (s_ecalls s).
-Definition emb_release (e : Z) (s : state) : state :=
+(* embargo.Shutdown (the promised client has run out of references).  As repaired (F22) the
+   embargoed client e.c is released by whichever of lift / Shutdown comes last; before the repair
+   Shutdown released it at once (not before the calls blocked on the hook were through). *)
+Definition emb_release (c : cfg) (e : Z) (s : state) : state :=
   match tget e (s_emb s) with
   | Some em =>
     if 0 <? e_refs em then
       let s1 := set_emb (replace_nth (Z.to_nat e) (Some (mkEmb (e_cap em) (e_refs em - 1))) (s_emb s)) s in
-      (* embargo.Shutdown: e.c.Release() -- not before the calls blocked on the hook are through *)
-      if (e_refs em - 1 =? 0) && negb (emb_busy e s) then lref_cap (-1) (e_cap em) s1
+      if (e_refs em - 1 =? 0) && negb (emb_busy e s) && negb (fx22 c) then lref_cap (-1) (e_cap em) s1
       else s1
     else s
   | None => s
@@ -391,7 +393,7 @@ Definition release_cap (c : cfg) (x : cap) (s : state) : res (state * list outpu
   | CNull | CErr => Ok (s, [])
   | CLocal j => Ok (lref (-1) j s, [])
   | CImp i g => imp_release c i g s
-  | CEmb e => Ok (emb_release e s, [])
+  | CEmb e => Ok (emb_release c e s, [])
   end.
 Fixpoint release_caps (c : cfg) (l : list cap) (s : state) : res (state * list output) :=
   match l with
@@ -438,7 +440,7 @@ Fixpoint wake_calls (e : Z) (x : cap) (l : list (Z * Z * Z)) (s : state) : state
     else wake_calls e x r s
   end.
 Definition lift (c : cfg) (e : Z) (em : embent) (s : state) : res (state * list output) :=
-  if (e_refs em =? 0) && negb (emb_busy e s) then (if fx22 c then Ok (s, []) else Panic W_F22)
+  if (e_refs em =? 0) && negb (emb_busy e s) && negb (fx22 c) then Panic W_F22
   else
     let d := if e_refs em =? 0 then -1 else e_refs em - 1 in
     let s1 := lref_cap d (e_cap em) (set_handles (map (rewrite_handle e (e_cap em)) (s_handles s)) s) in
